@@ -54,6 +54,9 @@ def last_contig_len(rows):
 
 class C08(Check):
     pid = "C08"
+    level_text = (
+        "Bounded exhaustive over null maps (texel size x floor/ceil x absent sub-texel scaffolds x order x painted); the oracle is the input itself."
+    )
     technique = (
         "exhaustive scope enumeration on the real BuildAssembly over null PretextView maps: all small 1-2 scaffold inputs x texel sizes x "
         "floor/ceil rounding x absent sub-texel scaffolds x map order x painted; output compared with the input itself"
